@@ -903,6 +903,13 @@ def random_col(rng, world) -> Optional[Dict[str, Any]]:
                 cur = ("obj", s["base"])
             else:
                 cur = ("val", s)
+                r = rng.random()
+                if r < 0.02 and s["base"] in ARITH:  # refused: a method call on double / float / int
+                    steps.append(call("foo"))
+                    return {"steps": steps, "fin": {"k": "plain"}}
+                if r < 0.03:  # refused: index of something that is not a collection
+                    steps.append({"k": "index", "i": 0})
+                    return {"steps": steps, "fin": {"k": "plain"}}
                 break
         elif cur[0] == "coll":
             s = cur[1]
@@ -1053,6 +1060,11 @@ def judge_pipeline(ctx, stream: str, cases: List[Dict[str, Any]], compile_all: b
             if "ok" in mc:
                 o = mc["ok"]
                 ctx.count(f"pipe-col:loops={len(o['loops'])}")
+                ctx.count(f"pipe-col:star-levels={min(o['rhs'].count('(*'), 9)}")
+                if o["rhs"].startswith("static_cast"):
+                    ctx.count("pipe-col:tree-type-cast")
+                if "==" in o["rhs"]:
+                    ctx.count("pipe-col:enum-compare")
                 if o["warns"]:
                     ctx.count("pipe-col:fallback")
                 if not o["roundtrip"]:
@@ -1291,10 +1303,10 @@ def run(ctx):
     thorough = ctx.tier == "thorough"
     ex = list(exhaustive_worlds(ctx.tier))
     judge_pipeline(ctx, "exhaustive", ex, compile_all=thorough, compile_sample=60)
-    n = 250 if not thorough else 4000
+    n = 600 if not thorough else 6000
     rnd = [random_case(ctx.rng) for _ in range(n)]
     for lo in range(0, len(rnd), 1000):
-        judge_pipeline(ctx, "random", rnd[lo:lo + 1000], compile_all=thorough, compile_sample=60)
+        judge_pipeline(ctx, "random", rnd[lo:lo + 1000], compile_all=thorough, compile_sample=140)
     ctx.extra_cov["exhaustive"] = False
     ctx.extra_cov["exhaustive_part"] = (
         "type strings over 3 (quick) / 6 (thorough) base names x const x 0..3 stars x all blank patterns from a 3/4-letter blank alphabet; member access d,n in 0..3; "
